@@ -4,6 +4,16 @@
 import re, subprocess, sys
 for pid in sys.argv[1:]:
     s = open('/verif/out/notes/%s_strengthen.md' % pid).read()
+    blocks = [b for b in re.findall(r"```python\n(.*?)```", s, re.S) if b.lstrip().startswith("reg(")]
+    if blocks:
+        got = {}
+        def reg(pid_, engine, level, technique, text, note, design=None):
+            got.update(technique=technique, text=text, note=note)
+        exec(blocks[0], {"reg": reg})
+        for field in ("technique", "text", "note"):
+            subprocess.run(['/verif/tools/set_reg.py', pid, field], input=got[field], text=True, check=True)
+        subprocess.run(['cp', '/verif/out/notes/%s_strengthen.md' % pid, '/verif/notes/'])
+        continue
     for field in ("technique", "text", "note"):
         m = re.search(r'\n\**%s\**:\**\s*(.+?)\n\s*\n' % field, s + "\n\n", re.S)
         if not m:
